@@ -83,6 +83,37 @@ CHECKS["C01"] = dict(
          "(correspondence-checked); handlers registered without a decorator (raw_handlers) are observed by the oracle only.",
     technique="Coq proof over decorator model + regenerated handler tables + mutation-based differential correspondence", design="5/C01")
 
+CHECKS["C08"] = dict(
+    text="Coq-proved over a symbolic model of create/created/extend/extended (DH, MAC, KDF as one Section variable, instantiated by a "
+         "term algebra): a hop is appended only by an answer matching the outstanding retry cache, its identifier and a verifying MAC; "
+         "every hop's keys are kdf(dh x Y, dh x static(selected peer)), computable only with the originator's ephemeral or that peer's "
+         "private key; wrong-identifier, other-circuit, replayed, duplicated and altered answers change nothing or only schedule removal; "
+         "established hops are never modified by any history; a relay turns a created into an extended only through the pending entry, "
+         "consuming it, key material unmodified; honest exchanges of any path length give identical keys at both ends (26 theorems, "
+         "induction over event lists and paths). Tied to the real TunnelCommunity by lockstep correspondence (alpha(state), event -> "
+         "step inside Coq = alpha(state')) under scripted adversaries at every position (17 manipulation kinds), plus an independent "
+         "oracle recomputing MACs and keys.",
+    note="X25519, HMAC, HKDF and AEAD are ideal hypotheses (satisfied by the toy term algebra); randomness and candidate selection are "
+         "oracle inputs; onion encryption of extend/extended cells is C04's; the alpha abstraction relies on spies on the primitives. "
+         "The MAC does not authenticate the responder (proved as substituted_ephemeral_accepted_keys_stay_secret: dead circuit, no key "
+         "compromise). Model follows fix 88afc4f.",
+    technique="symbolic protocol model in Gallina, invariants over event histories, lockstep refinement checking under a virtual clock",
+    design="5/C08")
+CHECKS["C17"] = dict(
+    text="Coq proof over a model of IdentityCommunity / IdentityManager / identity database (hash, signatures, JSON as quantified "
+         "functions; reuses the C16 tree model): the node attests only metadata of the authenticated sender whose token's attribute hash "
+         "the user last registered for exactly that subject and name (and exactly the fixed extra metadata) at most 300 s earlier, after "
+         "a message whose tokens and attestations all verified, and never twice; it stores only attestations valid under the named "
+         "authority (for Attest messages only the sender's); own-chain tokens leave only in answers to the requesting peer or in "
+         "user-requested disclosures and only below the position the user opened (12 theorems over arbitrary histories). Checked against "
+         "real nodes on ~420 (quick) / ~6300 (thorough) scripted honest/dishonest histories with state comparison after every event, "
+         "and an independent oracle on raw packets and database rows.",
+    note="Trusted: harness wire decoding, injective renaming of digests/signatures/keys, json.loads, SQLite reads, C01 (peer = key), "
+         "C02/C03 decoding, C16 tree model. no_double_sign assumes signing correctness and that a signature verifies under one key only. "
+         "Rootedness claimed for subjects other than the node itself. Time in integer seconds. Model follows fixes 018b8e1, b6d8bb2.",
+    technique="Coq proof (invariants + induction over histories), lockstep differential correspondence on real overlays, Python oracle",
+    design="5/C17")
+
 NOT_APPLICABLE = {}
 
 
